@@ -882,6 +882,12 @@ class SReal:
       return NotImplemented
     return o.__truediv__(self)
 
+  # field abstraction: "//" on abstract field elements is the exact division
+  # (harnesses that rely on it state "integer divisions are exact" as an
+  # assumption)
+  def __floordiv__(self, o):
+    return self.__truediv__(o)
+
   def __neg__(self):
     return _wrap_real(-self.t)
 
